@@ -179,7 +179,8 @@ def _run(ck):
         nmin = emin - p
         for rm in modes:
             ctx_cases({'kind': 'mpsfloat', 'p': p, 'emin': emin, 'rm': rm},
-                      grid(nmin - 3, 2 ** (p + 5)) + SPECIALS, ns_=(None, nmin + 2) if rm == 'RNE' else (None,))
+                      grid(nmin - 3, 2 ** (p + 5)) + SPECIALS,
+                      ns_=(None, nmin + 2, nmin - 2) if rm in ('RNE', 'RTZ') else (None,))
     # MPBFloat
     mpb = []
     for p, emin in ([(2, -1), (3, 0)] if not thorough else [(1, 0), (2, -1), (3, 0), (3, -2), (4, 0)]):
@@ -197,6 +198,10 @@ def _run(ck):
                     continue
                 ctx_cases({'kind': 'mpbfloat', 'p': p, 'emin': emin, 'maxval': mv, 'neg_maxval': nmv, 'rm': rm, 'ov': ov},
                           grid(nmin - 3, min(kmax, 700)) + SPECIALS)
+                if ov == 'OVERFLOW' and rm in ('RNE', 'RTP', 'RTO'):
+                    # round_at / round_integer positions below and above the format's own least digit
+                    ctx_cases({'kind': 'mpbfloat', 'p': p, 'emin': emin, 'maxval': mv, 'neg_maxval': nmv, 'rm': rm, 'ov': ov},
+                              grid(nmin - 3, min(kmax, 200)), ns_=(nmin - 2, nmin - 1, nmin + 1, -1))
         for ei, iv in [(False, None), (False, ('fin', False, mv[1], mv[2])), (False, ('fin', False, 0, 0))]:
             ctx_cases({'kind': 'mpbfloat', 'p': p, 'emin': emin, 'maxval': mv, 'rm': 'RNE', 'ov': 'OVERFLOW',
                        'enable_inf': ei, 'inf_value': iv}, grid(nmin - 1, min(kmax // 4, 300)) + SPECIALS)
@@ -221,6 +226,10 @@ def _run(ck):
                                     continue
                                 ctx_cases({'kind': 'efloat', 'es': es, 'nbits': nbits, 'enable_inf': einf, 'nk': nk, 'eoffset': eoff,
                                            'rm': rm, 'ov': ov}, grid(nmin - 3, kmax) + SPECIALS)
+                                if ov == 'OVERFLOW' and rm in ('RNE', 'RAZ') and nbits <= 3 and einf and nk in ('IEEE_754', 'NONE'):
+                                    ctx_cases({'kind': 'efloat', 'es': es, 'nbits': nbits, 'enable_inf': einf, 'nk': nk,
+                                               'eoffset': eoff, 'rm': rm, 'ov': ov}, grid(nmin - 3, min(kmax, 120)),
+                                              ns_=(nmin - 2, nmin + 1))
                         ctx_cases({'kind': 'efloat', 'es': es, 'nbits': nbits, 'enable_inf': einf, 'nk': nk, 'eoffset': eoff,
                                    'rm': 'RNE', 'ov': 'OVERFLOW', 'nan_value': ('fin', False, 0, 0), 'inf_value': ('fin', False, 0, 0)},
                                   grid(nmin - 1, kmax // 4) + SPECIALS)
@@ -232,6 +241,10 @@ def _run(ck):
                                                     (None, ('fin', True, nmin + 1, 5))):
             ctx_cases({'kind': 'mpfixed', 'nmin': nmin, 'rm': 'RTN', 'enable_nan': en, 'enable_inf': ei, 'neg_zero': nz,
                        'nan_value': nv, 'inf_value': iv}, SPECIALS + grid(nmin - 2, 6))
+        for rm in ('RNE', 'RTZ', 'RTP', 'RAZ'):
+            for nz in (True, False):
+                ctx_cases({'kind': 'mpfixed', 'nmin': nmin, 'rm': rm, 'enable_nan': True, 'enable_inf': True, 'neg_zero': nz,
+                           'nan_value': None, 'inf_value': None}, grid(nmin - 2, 20), ns_=(None, nmin + 2))
     # MPBFixed (asymmetric bounds), Fixed, SMFixed
     for nmin in (-1, 0):
         for mv, nmv in [((False, nmin + 1, 5), None), ((False, nmin + 1, 6), (True, nmin + 1, 3)), ((False, nmin + 1, 3), (False, 0, 0))]:
